@@ -247,7 +247,32 @@ def valid_sym(ctx: Ctx, chk) -> None:
                 continue
             v = rec["validate"]
             if v.get("kind") != "Range":
-                raise AnalysisError(f"VALID-SYM: validator {v.get('text')} on {sfq}.{name} not modelled")
+                # any other validator (a function, Length, Regexp, OneOf ...): it holds for every stored value only if
+                # no writer stores an unvalidated value there.  A value taken from a received message or computed from
+                # one is not known to satisfy it - constants cannot be judged without running the validator
+                undecided = []
+                refuted = False
+                for f, node, val in writers_of(ctx, c, name):
+                    n += 1
+                    chk.instance(rule)
+                    key = f"{f.fq}::{name}::{norm(node)[:70]}"
+                    cv = Canon(ctx.I, f).canon(val)
+                    is_const = False
+                    try:
+                        ast.literal_eval(cv)
+                        is_const = True
+                    except (ValueError, SyntaxError):
+                        pass
+                    if is_const:
+                        undecided.append((f, node, cv))
+                        continue
+                    refuted = True
+                    chk.refute(rule, key, f"{f.qualname} stores `{cv[:60]}` into {c.name}.{name} as it arrives, but {s.name} now validates that field on load with `{str(v.get('text'))[:60]}`: a value the network can report and the registry holds, yet the validator refuses, is saved into a file that the next start cannot load (or load raises whatever the validator raises)", ctx.loc(f, node))
+                if undecided and not refuted:
+                    raise AnalysisError(f"VALID-SYM: validator {v.get('text')} on {sfq}.{name} is only fed constants ({[u[2] for u in undecided][:3]}): not decidable without running it")
+                for f, node, cv in undecided:
+                    chk.ok(rule, f"{f.fq}::{name}::{norm(node)[:70]}", f"constant {cv} (not judged: the field is refuted through its other writers)", ctx.loc(f, node), sample=False)
+                continue
             lo, hi = v.get("min"), v.get("max")
             for f, node, val in writers_of(ctx, c, name):
                 n += 1
